@@ -133,6 +133,22 @@ def hidden_constructor():
     return None
 
 
+def display_spellings():
+    """`display` given as one value (a TOML string, a keyword argument) selects what the one-element list selects, in any letter case"""
+    text = "module m\n  implicit none\n  private\n  public :: pub\ncontains\n  subroutine pub()\n    !! public one\n  end subroutine pub\n  subroutine hid()\n    !! hidden one\n  end subroutine hid\nend module m\n"
+    res = {}
+    for label, disp in (("list", ["private"]), ("one string", "private"), ("upper case", ["PRIVATE"]), ("one upper-case string", "Private")):
+        try:
+            proj = realrun.build_project({"src/m.f90": text}, display=disp)
+            res[label] = sorted(p.name for p in proj.procedures)
+        except Exception as e:
+            res[label] = f"{type(e).__name__}: {e}"
+    if any(v != ["hid"] for v in res.values()):
+        return {"confirmed": True, "input": {"source": text, "display": "['private'] / 'private' / ['PRIVATE'] / 'Private'"}, "actual": res, "expected": {k: ["hid"] for k in res},
+                "how": "real Project + correlate: procedures that get a page under each spelling of the display option"}
+    return None
+
+
 def cases():
     for pd, ep, doc, inproc in itertools.product(["", "private"], ["", "private", "public"], [True, False], [False, True]):
         for display in (["public", "protected"], ["private"], ["public", "private", "protected"]):
@@ -144,7 +160,7 @@ def cases():
 
 
 def search(limit=None):
-    hit = hidden_procedure_namelist() or module_procedure_body() or metadata_key_case() or hidden_constructor()
+    hit = hidden_procedure_namelist() or module_procedure_body() or metadata_key_case() or hidden_constructor() or display_spellings() or __import__("bounded.c04", fromlist=["x"]).multi_name_binding_case()
     if hit:
         return hit
     n = 0
